@@ -13,6 +13,7 @@ import Relsad.Model.Graph
 import Relsad.Lemmas.GraphL
 import Relsad.Lemmas.ControlInvL
 import Mathlib.Tactic.Linarith
+import Relsad.Lemmas.ControlCalmL
 
 namespace Relsad.C16
 open Relsad.Graph Relation
@@ -112,5 +113,35 @@ theorem needSens_iff (C : Cfg) (cm : Comm) (k : Nat) :
   constructor
   · rintro ⟨l, hl, h⟩; exact ⟨l, hl, by simpa using h⟩
   · rintro ⟨l, hl, h⟩; exact ⟨l, hl, by simp [h]⟩
+
+open Relsad.Control in
+/-- **A software failure of the main controller never shortens a sectioning time that is running**: when its recovery
+time `S` is handed to the sub-controllers, every controller whose breaker is open keeps the larger of its own remaining
+time and `S`, every other controller keeps its own — so a fault that is being sectioned by hand (unreachable device,
+controller under repair when the fault hit) is not restored earlier because the main controller hiccups meanwhile. -/
+theorem software_failure_keeps_larger_time (C : Cfg) (s : St) (S : ℚ) (ht : s.timer.length = C.nets.length) (n : Nat) :
+    gr (spreadSec C s S).timer n =
+      (if n < C.nets.length ∧ gb s.cbOpen (C.nets.getD n default).cb = true then (if gr s.timer n < S then S else gr s.timer n) else gr s.timer n) ∧
+    gr s.timer n ≤ gr (spreadSec C s S).timer n :=
+  ⟨spreadTimers_get C s.cbOpen S s.timer ht n, spreadSec_timer_ge C s S ht n⟩
+
+open Relsad.Control in
+/-- … and it touches nothing else: lines, switches, sections, flags and the microgrids' parent timers are as before. -/
+theorem software_failure_touches_timers_only (C : Cfg) (s : St) (S : ℚ) :
+    (spreadSec C s S).conn = s.conn ∧ (spreadSec C s S).dOpen = s.dOpen ∧ (spreadSec C s S).cbOpen = s.cbOpen ∧
+    (spreadSec C s S).secConn = s.secConn ∧ (spreadSec C s S).failed = s.failed ∧ (spreadSec C s S).failedSecs = s.failedSecs ∧
+    (spreadSec C s S).pTimer = s.pTimer ∧ (spreadSec C s S).check = s.check :=
+  ⟨rfl, rfl, rfl, rfl, rfl, rfl, rfl, rfl⟩
+
+open Relsad.Control in
+/-- Non-vacuity: breaker open with 1 h of manual sectioning left; a software failure cured in 2 s leaves the hour in place,
+one that takes 3 h to cure extends it. -/
+example :
+    let C : Cfg := { lines := [⟨0, some 0, [], 0⟩], disconLine := [], cbLine := [0], secs := [⟨[0], [.breaker 0]⟩],
+                     nets := [⟨0, 0, [0], [0], [], none, none⟩], T := 1 }
+    let s : St := { St.init C with cbOpen := [true], timer := [1] }
+    (spreadSec C s (1/1800)).timer = [1] ∧ (spreadSec C s 3).timer = [3] ∧ (spreadSec C (St.init C) 3).timer = [0] := by
+  intro C s
+  exact ⟨by decide +kernel, by decide +kernel, by decide +kernel⟩
 
 end Relsad.C16
